@@ -133,7 +133,12 @@ def record_fn(_xv=("int", None), **kw):
         # collecting results in completion order gets them reversed
         import time
         delay, n = _xv[2]
-        time.sleep(delay * max(0.0, (n - float(kw.get("a", 0))) / n))
+        if not n:
+            # about every other setting takes a while, whatever it is called
+            if kw_number(kw, salt=3) % 2 == 0:
+                time.sleep(delay)
+        else:
+            time.sleep(delay * max(0.0, (n - float(kw.get("a", 0))) / n))
     if logfile is None:
         LOG.append(dict(kw))
     else:
